@@ -380,6 +380,10 @@ EXTRA = [
     (["FloatDistribution", {"low": 0.1, "high": 0.7, "step": 0.1}], 2),
     (["FloatDistribution", {"low": 1000.0, "high": 1001.0, "step": 0.3}], 2),
     (["DiscreteUniformDistribution", {"low": 0.05, "high": 0.95, "q": 0.15}], 3),
+    # fine grids (1e5 - 2e5 points): a value a tenth of a step off the grid is NOT contained, however large (high-low)/step is
+    (["FloatDistribution", {"low": 0.0, "high": 100.0, "step": 0.001}], 4),
+    (["FloatDistribution", {"low": -50.0, "high": 50.0, "step": 0.0005}], 4),
+    (["FloatDistribution", {"low": 10.0, "high": 2010.0, "step": 0.02}], 3),
     (["IntDistribution", {"low": 1, "high": 1, "log": True}], 0),
     (["IntDistribution", {"low": 1, "high": 2, "log": True}], 0),
     (["IntDistribution", {"low": 1, "high": 200, "log": True}], 0),
